@@ -1000,3 +1000,331 @@ Qed.
 End EriPrim.
 
 End Lists.
+
+(* ======================= the whole block ======================= *)
+Section Whole.
+Context {F : Type} (K : Fops F) (Kf : is_field K).
+Add Field KFtw : Kf.
+Local Open Scope F_scope.
+Notation "0" := (f0 K) : F_scope.
+Notation "1" := (f1 K) : F_scope.
+Infix "+" := (fadd K) : F_scope.
+Infix "*" := (fmul K) : F_scope.
+Infix "-" := (fsub K) : F_scope.
+Infix "/" := (fdiv K) : F_scope.
+Notation "- x" := (fopp K x) : F_scope.
+Notation "# n" := (ofnat K n) (at level 5) : F_scope.
+Notation padd := (padd K).
+Notation pscale := (pscale K).
+Notation Phi := (Phi K).
+Notation peval := (peval K).
+Notation fsum := (FNum.fsum K).
+
+Definition tab6 := nat -> nat -> nat -> nat -> nat -> nat -> F.
+
+(* ---- horizontal recursion on s-polynomials ---- *)
+Fixpoint Hp (ab : F) (T : nat -> list F) (b a : nat) : list F :=
+  match b with O => T a | S b' => padd (Hp ab T b' (S a)) (pscale ab (Hp ab T b' a)) end.
+Lemma Hp_linear (ell : list F -> F) :
+  (forall f g, ell (padd f g) = ell f + ell g) -> (forall k f, ell (pscale k f) = k * ell f) ->
+  forall ab T b a, ell (Hp ab T b a) = Hf K ab (fun j => ell (T j)) b a.
+Proof. intros Ha Hs ab T. induction b as [|b IH]; intros a; cbn [Hp Hf]; [reflexivity|].
+  rewrite Ha, Hs, !IH. reflexivity. Qed.
+
+Section ChanPoly.
+Variables (abx aby abz cdx cdy cdz : F).
+(* the polynomial counterpart of chan_val *)
+Definition chan_poly (G : nat -> nat -> nat -> nat -> nat -> nat -> list F)
+           (cx cy cz dx dy dz bx by_ bz ax ay az : nat) : list F :=
+  Hp abz (fun az' => Hp aby (fun ay' => Hp abx (fun ax' =>
+    Hp cdz (fun cz' => Hp cdy (fun cy' => Hp cdx (fun cx' => G cx' cy' cz' ax' ay' az') dx cx) dy cy) dz cz)
+    bx ax) by_ ay) bz az.
+
+Lemma chan_poly_linear (ell : list F -> F) :
+  (forall f g, ell (padd f g) = ell f + ell g) -> (forall k f, ell (pscale k f) = k * ell f) ->
+  forall G cx cy cz dx dy dz bx by_ bz ax ay az,
+  ell (chan_poly G cx cy cz dx dy dz bx by_ bz ax ay az)
+  = chan_val K abx aby abz cdx cdy cdz (fun cx' cy' cz' ax' ay' az' => ell (G cx' cy' cz' ax' ay' az'))
+             cx cy cz dx dy dz bx by_ bz ax ay az.
+Proof.
+  intros Ha Hs G cx cy cz dx dy dz bx by_ bz ax ay az. unfold chan_poly, chan_val, H3g.
+  rewrite (Hp_linear ell Ha Hs). apply (Hf_ext K). intros az'.
+  rewrite (Hp_linear ell Ha Hs). apply (Hf_ext K). intros ay'.
+  rewrite (Hp_linear ell Ha Hs). apply (Hf_ext K). intros ax'.
+  rewrite (Hp_linear ell Ha Hs). apply (Hf_ext K). intros cz'.
+  rewrite (Hp_linear ell Ha Hs). apply (Hf_ext K). intros cy'.
+  rewrite (Hp_linear ell Ha Hs). reflexivity.
+Qed.
+
+Lemma Hf_factor ab (T g : nat -> F) k b a : (forall j, T j = g j * k) -> Hf K ab T b a = Hf K ab g b a * k.
+Proof. intros H. rewrite (Hf_ext K ab T (fun j => g j * k) H). apply (Hf_scale K Kf). Qed.
+
+(* per-axis four-index quantity: HRR on (a, b) of HRR on (c, d) *)
+Definition hh (ab cd : F) (g : nat -> nat -> F) (a b c d : nat) : F :=
+  Hf K ab (fun a' => Hf K cd (fun c' => g a' c') d c) b a.
+
+(* a table that factorises over the axes gives a product of per-axis quantities *)
+Lemma chan_val_product (gx gy gz : nat -> nat -> F) cx cy cz dx dy dz bx by_ bz ax ay az :
+  chan_val K abx aby abz cdx cdy cdz
+    (fun cx' cy' cz' ax' ay' az' => gx ax' cx' * gy ay' cy' * gz az' cz')
+    cx cy cz dx dy dz bx by_ bz ax ay az
+  = hh abx cdx gx ax bx cx dx * hh aby cdy gy ay by_ cy dy * hh abz cdz gz az bz cz dz.
+Proof.
+  unfold chan_val, H3g, hh.
+  rewrite (Hf_factor abz _ (fun az' => Hf K cdz (fun c' => gz az' c') dz cz)
+             (Hf K abx (fun a' => Hf K cdx (fun c' => gx a' c') dx cx) bx ax
+              * Hf K aby (fun a' => Hf K cdy (fun c' => gy a' c') dy cy) by_ ay)); [ring|].
+  intros az'.
+  rewrite (Hf_factor aby _ (fun ay' => Hf K cdy (fun c' => gy ay' c') dy cy)
+             (Hf K abx (fun a' => Hf K cdx (fun c' => gx a' c') dx cx) bx ax
+              * Hf K cdz (fun c' => gz az' c') dz cz)); [ring|].
+  intros ay'.
+  rewrite (Hf_factor abx _ (fun ax' => Hf K cdx (fun c' => gx ax' c') dx cx)
+             (Hf K cdy (fun c' => gy ay' c') dy cy * Hf K cdz (fun c' => gz az' c') dz cz)); [ring|].
+  intros ax'.
+  rewrite (Hf_factor cdz _ (fun cz' => gz az' cz')
+             (Hf K cdx (fun c' => gx ax' c') dx cx * Hf K cdy (fun c' => gy ay' c') dy cy)); [ring|].
+  intros cz'.
+  rewrite (Hf_factor cdy _ (fun cy' => gy ay' cy')
+             (Hf K cdx (fun c' => gx ax' c') dx cx * gz az' cz')); [ring|].
+  intros cy'.
+  rewrite (Hf_factor cdx _ (fun cx' => gx ax' cx') (gy ay' cy' * gz az' cz')); [ring|].
+  intros cx'. ring.
+Qed.
+
+(* chan_val is a linear functional of the six-index table *)
+Lemma chan_val_ext (G G' : tab6) cx cy cz dx dy dz bx by_ bz ax ay az :
+  (forall cx' cy' cz' ax' ay' az', G cx' cy' cz' ax' ay' az' = G' cx' cy' cz' ax' ay' az') ->
+  chan_val K abx aby abz cdx cdy cdz G cx cy cz dx dy dz bx by_ bz ax ay az
+  = chan_val K abx aby abz cdx cdy cdz G' cx cy cz dx dy dz bx by_ bz ax ay az.
+Proof.
+  intros H. unfold chan_val. apply H3g_local. intros x y z _ _ _.
+  apply H3g_local. intros x' y' z' _ _ _. apply H.
+Qed.
+Lemma chan_val_add (G1 G2 : tab6) cx cy cz dx dy dz bx by_ bz ax ay az :
+  chan_val K abx aby abz cdx cdy cdz
+    (fun cx' cy' cz' ax' ay' az' => G1 cx' cy' cz' ax' ay' az' + G2 cx' cy' cz' ax' ay' az')
+    cx cy cz dx dy dz bx by_ bz ax ay az
+  = chan_val K abx aby abz cdx cdy cdz G1 cx cy cz dx dy dz bx by_ bz ax ay az
+    + chan_val K abx aby abz cdx cdy cdz G2 cx cy cz dx dy dz bx by_ bz ax ay az.
+Proof.
+  unfold chan_val, H3g.
+  repeat (rewrite <- (Hf_add K Kf); apply (Hf_ext K); intro).
+  reflexivity.
+Qed.
+Lemma chan_val_scale (G : tab6) k cx cy cz dx dy dz bx by_ bz ax ay az :
+  chan_val K abx aby abz cdx cdy cdz
+    (fun cx' cy' cz' ax' ay' az' => G cx' cy' cz' ax' ay' az' * k)
+    cx cy cz dx dy dz bx by_ bz ax ay az
+  = chan_val K abx aby abz cdx cdy cdz G cx cy cz dx dy dz bx by_ bz ax ay az * k.
+Proof.
+  unfold chan_val, H3g.
+  repeat (rewrite <- (Hf_scale K Kf); apply (Hf_ext K); intro).
+  reflexivity.
+Qed.
+Lemma chan_val_local (G G' : tab6) cx cy cz dx dy dz bx by_ bz ax ay az :
+  (forall cx' cy' cz' ax' ay' az',
+     cx <= cx' <= cx + dx -> cy <= cy' <= cy + dy -> cz <= cz' <= cz + dz ->
+     ax <= ax' <= ax + bx -> ay <= ay' <= ay + by_ -> az <= az' <= az + bz ->
+     G cx' cy' cz' ax' ay' az' = G' cx' cy' cz' ax' ay' az') ->
+  chan_val K abx aby abz cdx cdy cdz G cx cy cz dx dy dz bx by_ bz ax ay az
+  = chan_val K abx aby abz cdx cdy cdz G' cx cy cz dx dy dz bx by_ bz ax ay az.
+Proof.
+  intros H. unfold chan_val. apply H3g_local. intros x y z Hx Hy Hz.
+  apply H3g_local. intros x' y' z' Hx' Hy' Hz'. now apply H.
+Qed.
+End ChanPoly.
+
+(* ---- sums over the primitives ---- *)
+Lemma csum_map {A B} ws m (g : A -> B) (xs : list A) (f : B -> F) :
+  csum K ws m (map g xs) f = csum K ws m xs (fun x => f (g x)).
+Proof. unfold csum. revert ws. induction xs as [|x xs IH]; intros [|w ws]; cbn [map combine]; try reflexivity.
+  cbn [FNum.fsum fold_right]. f_equal. apply IH. Qed.
+Lemma csum_ext_in {A} ws m (xs : list A) (f f' : A -> F) :
+  (forall x, In x xs -> f x = f' x) -> csum K ws m xs f = csum K ws m xs f'.
+Proof. unfold csum. revert ws. induction xs as [|x xs IH]; intros [|w ws] H; cbn [map combine]; try reflexivity.
+  cbn [FNum.fsum fold_right snd fst]. rewrite (H x) by (now left). f_equal.
+  apply IH. intros y Hy. apply H. now right. Qed.
+
+Lemma csum_linear (Lam : tab6 -> F) :
+  (forall G G', (forall a b c d e g, G a b c d e g = G' a b c d e g) -> Lam G = Lam G') ->
+  (forall G1 G2, Lam (fun a b c d e g => G1 a b c d e g + G2 a b c d e g) = Lam G1 + Lam G2) ->
+  (forall G k, Lam (fun a b c d e g => G a b c d e g * k) = Lam G * k) ->
+  forall {A} ws m (xs : list A) (f : A -> tab6),
+  Lam (fun a b c d e g => csum K ws m xs (fun x => f x a b c d e g))
+  = csum K ws m xs (fun x => Lam (f x)).
+Proof.
+  intros Hext Hadd Hsc A ws m xs f. unfold csum.
+  assert (Hz : Lam (fun _ _ _ _ _ _ => 0) = 0).
+  { rewrite (Hext _ (fun a b c d e g => (fun _ _ _ _ _ _ => 0) a b c d e g * 0))
+      by (intros; cbv beta; ring). rewrite Hsc. ring. }
+  revert ws. induction xs as [|x xs IH]; intros [|w ws]; cbn [map combine FNum.fsum fold_right]; try exact Hz.
+  cbn [snd fst].
+  rewrite (Hadd (fun a b c d e g => f x a b c d e g * wcoef K m w)
+                (fun a b c d e g => fold_right (fadd K) 0
+                   (map (fun wx : F * list F * A => f (snd wx) a b c d e g * wcoef K m (fst wx)) (combine ws xs)))).
+  rewrite Hsc. f_equal. apply IH.
+Qed.
+
+(* ---- the statement for one block entry ---- *)
+Section Final.
+Variables (s1 s2 s3 s4 : shell F) (m1 i1 m2 i2 m3 i3 m4 i4 : nat).
+Let c1 := nth i1 (comps_of s1) (0, 0, 0)%nat.
+Let c2 := nth i2 (comps_of s2) (0, 0, 0)%nat.
+Let c3 := nth i3 (comps_of s3) (0, 0, 0)%nat.
+Let c4 := nth i4 (comps_of s4) (0, 0, 0)%nat.
+Let abx := s_x s1 - s_x s2. Let aby := s_y s1 - s_y s2. Let abz := s_z s1 - s_z s2.
+Let cdx := s_x s3 - s_x s4. Let cdy := s_y s3 - s_y s4. Let cdz := s_z s3 - s_z s4.
+
+(* weighted centre along one axis *)
+Definition wctr (a b x y : F) : F := (a * x + b * y) / (a + b).
+
+(* the s-polynomial of the primitive quartet (alpha beta | gamma delta) for this entry *)
+Definition R4 (alpha beta gamma delta : F) : list F :=
+  let p := alpha + beta in let q := gamma + delta in
+  let Px := wctr alpha beta (s_x s1) (s_x s2) in let Py := wctr alpha beta (s_y s1) (s_y s2) in
+  let Pz := wctr alpha beta (s_z s1) (s_z s2) in
+  let Qx := wctr gamma delta (s_x s3) (s_x s4) in let Qy := wctr gamma delta (s_y s3) (s_y s4) in
+  let Qz := wctr gamma delta (s_z s3) (s_z s4) in
+  chan_poly abx aby abz cdx cdy cdz
+    (R3 K p q (Px - s_x s1) (Py - s_y s1) (Pz - s_z s1) (Qx - s_x s3) (Qy - s_y s3) (Qz - s_z s3)
+        (Px - Qx) (Py - Qy) (Pz - Qz))
+    (fst (fst c3)) (snd (fst c3)) (snd c3) (fst (fst c4)) (snd (fst c4)) (snd c4)
+    (fst (fst c2)) (snd (fst c2)) (snd c2) (fst (fst c1)) (snd (fst c1)) (snd c1).
+
+(* the exact per-axis integrand at s: E[(y1+a1)^a (y1+a1+AB)^b (y2+c1)^c (y2+c1+CD)^d] *)
+Definition M4 (alpha beta gamma delta : F) (xa xb xc xd : F) (s : F) (a b c d : nat) : F :=
+  let p := alpha + beta in let q := gamma + delta in
+  let P := wctr alpha beta xa xb in let Q := wctr gamma delta xc xd in
+  hh (xa - xb) (xc - xd) (fun a' c' => Ms K p q (P - xa) (Q - xc) (P - Q) s a' c') a b c d.
+
+Hypothesis Hapx : forall x, fapx K x = x.
+Hypothesis H2 : 1 + 1 <> 0.
+Hypothesis Hp : forall alpha beta, In alpha (s_exps s1) -> In beta (s_exps s2) -> alpha + beta <> 0.
+Hypothesis Hq : forall gamma delta, In gamma (s_exps s3) -> In delta (s_exps s4) -> gamma + delta <> 0.
+Hypothesis Hpq : forall alpha beta gamma delta, In alpha (s_exps s1) -> In beta (s_exps s2) ->
+  In gamma (s_exps s3) -> In delta (s_exps s4) -> (alpha + beta) + (gamma + delta) <> 0.
+Hypothesis Hm1 : m1 < nseg s1. Hypothesis Hm2 : m2 < nseg s2.
+Hypothesis Hm3 : m3 < nseg s3. Hypothesis Hm4 : m4 < nseg s4.
+Hypothesis Hi1 : i1 < length (comps_of s1). Hypothesis Hi2 : i2 < length (comps_of s2).
+Hypothesis Hi3 : i3 < length (comps_of s3). Hypothesis Hi4 : i4 < length (comps_of s4).
+Hypothesis Hc1 : compsum c1 <= s_l s1. Hypothesis Hc2 : compsum c2 <= s_l s2.
+Hypothesis Hc3 : compsum c3 <= s_l s3. Hypothesis Hc4 : compsum c4 <= s_l s4.
+
+Theorem two_elec_correct :
+  nth i4 (nth m4 (nth i3 (nth m3 (nth i2 (nth m2 (nth i1 (nth m1 (eri_block K s1 s2 s3 s4)
+    []) []) []) []) []) []) []) 0
+  = csum K (wts K s1) m1 (s_exps s1) (fun alpha =>
+      csum K (wts K s2) m2 (s_exps s2) (fun beta =>
+        csum K (wts K s3) m3 (s_exps s3) (fun gamma =>
+          csum K (wts K s4) m4 (s_exps s4) (fun delta =>
+            Phi (eri_base K (s_x s1) (s_y s1) (s_z s1) (s_x s2) (s_y s2) (s_z s2)
+                            (s_x s3) (s_y s3) (s_z s3) (s_x s4) (s_y s4) (s_z s4)
+                            alpha beta gamma delta) 0 (R4 alpha beta gamma delta)))))
+    * inv_sqrt_df K c1 * inv_sqrt_df K c2 * inv_sqrt_df K c3 * inv_sqrt_df K c4
+  /\ forall alpha beta gamma delta s,
+       In alpha (s_exps s1) -> In beta (s_exps s2) -> In gamma (s_exps s3) -> In delta (s_exps s4) ->
+       peval (R4 alpha beta gamma delta) s
+       = M4 alpha beta gamma delta (s_x s1) (s_x s2) (s_x s3) (s_x s4) s
+            (fst (fst c1)) (fst (fst c2)) (fst (fst c3)) (fst (fst c4))
+         * M4 alpha beta gamma delta (s_y s1) (s_y s2) (s_y s3) (s_y s4) s
+            (snd (fst c1)) (snd (fst c2)) (snd (fst c3)) (snd (fst c4))
+         * M4 alpha beta gamma delta (s_z s1) (s_z s2) (s_z s3) (s_z s4) s
+            (snd c1) (snd c2) (snd c3) (snd c4).
+Proof.
+  split.
+  - rewrite (eri_block_entry K s1 s2 s3 s4 m1 i1 m2 i2 m3 i3 m4 i4) by assumption.
+    fold c1 c2 c3 c4. fold abx aby abz cdx cdy cdz.
+    f_equal. f_equal. f_equal. f_equal.
+    set (Lam := fun G : tab6 => chan_val K abx aby abz cdx cdy cdz G
+                  (fst (fst c3)) (snd (fst c3)) (snd c3) (fst (fst c4)) (snd (fst c4)) (snd c4)
+                  (fst (fst c2)) (snd (fst c2)) (snd c2) (fst (fst c1)) (snd (fst c1)) (snd c1)).
+    assert (Lext : forall G G', (forall a b c d e g, G a b c d e g = G' a b c d e g) -> Lam G = Lam G')
+      by (intros; apply chan_val_ext; assumption).
+    assert (Ladd : forall G1 G2, Lam (fun a b c d e g => G1 a b c d e g + G2 a b c d e g) = Lam G1 + Lam G2)
+      by (intros; apply chan_val_add).
+    assert (Lsc : forall G k, Lam (fun a b c d e g => G a b c d e g * k) = Lam G * k)
+      by (intros; apply chan_val_scale).
+    match goal with |- _ = ?rhs =>
+      change (Lam (eri_contract K (wts K s1) (wts K s2) (wts K s3) (wts K s4) (eri_prims K s1 s2 s3 s4) m1 m2 m3 m4) = rhs) end.
+    unfold eri_contract, eri_prims. cbv zeta.
+    rewrite (Lext _ (fun a b c d e g => csum K (wts K s1) m1 _ (fun p1 =>
+               csum K (wts K s2) m2 p1 (fun p2 => csum K (wts K s3) m3 p2 (fun p3 =>
+                 csum K (wts K s4) m4 p3 (fun e0 => fapx K (eget K e0 a b c d e g))))))) by reflexivity.
+    rewrite (csum_linear Lam Lext Ladd Lsc). rewrite csum_map.
+    apply csum_ext_in. intros alpha Ha.
+    rewrite (csum_linear Lam Lext Ladd Lsc). rewrite csum_map.
+    apply csum_ext_in. intros beta Hb.
+    rewrite (csum_linear Lam Lext Ladd Lsc). rewrite csum_map.
+    apply csum_ext_in. intros gamma Hg.
+    rewrite (csum_linear Lam Lext Ladd Lsc). rewrite csum_map.
+    apply csum_ext_in. intros delta Hd.
+    unfold R4. cbv zeta.
+    rewrite (chan_poly_linear abx aby abz cdx cdy cdz (Phi _ 0) (Phi_padd K Kf _ 0)
+               (fun k f => Phi_pscale K Kf _ 0 k f)).
+    unfold Lam. apply chan_val_local.
+    intros cx' cy' cz' ax' ay' az' Hcx Hcy Hcz Hax Hay Haz.
+    rewrite Hapx. unfold coord3, wctr. unfold compsum in *.
+    pose proof (eri_prim_correct K Kf (s_x s1) (s_y s1) (s_z s1) (s_x s2) (s_y s2) (s_z s2)
+                  (s_x s3) (s_y s3) (s_z s3) (s_x s4) (s_y s4) (s_z s4) alpha beta gamma delta
+                  (s_l s1 + s_l s2 + s_l s3 + s_l s4) (s_l s3 + s_l s4) cx' cy' cz' ax' ay' az'
+                  (Hp _ _ Ha Hb) (Hq _ _ Hg Hd) (Hpq _ _ _ _ Ha Hb Hg Hd) H2) as E.
+    cbv zeta in E. apply E; lia.
+  - intros alpha beta gamma delta s Ha Hb Hg Hd.
+    unfold R4. cbv zeta.
+    rewrite (chan_poly_linear abx aby abz cdx cdy cdz (fun f => peval f s)
+               (fun f g => peval_padd K Kf f g s) (fun k f => peval_pscale K Kf k f s)).
+    rewrite (chan_val_ext abx aby abz cdx cdy cdz _
+      (fun cx' cy' cz' ax' ay' az' =>
+         Ms K (alpha + beta) (gamma + delta) (wctr alpha beta (s_x s1) (s_x s2) - s_x s1)
+            (wctr gamma delta (s_x s3) (s_x s4) - s_x s3)
+            (wctr alpha beta (s_x s1) (s_x s2) - wctr gamma delta (s_x s3) (s_x s4)) s ax' cx'
+         * Ms K (alpha + beta) (gamma + delta) (wctr alpha beta (s_y s1) (s_y s2) - s_y s1)
+            (wctr gamma delta (s_y s3) (s_y s4) - s_y s3)
+            (wctr alpha beta (s_y s1) (s_y s2) - wctr gamma delta (s_y s3) (s_y s4)) s ay' cy'
+         * Ms K (alpha + beta) (gamma + delta) (wctr alpha beta (s_z s1) (s_z s2) - s_z s1)
+            (wctr gamma delta (s_z s3) (s_z s4) - s_z s3)
+            (wctr alpha beta (s_z s1) (s_z s2) - wctr gamma delta (s_z s3) (s_z s4)) s az' cz')).
+    2:{ intros cx' cy' cz' ax' ay' az'.
+        apply (proj2 (eri_3d_correct K Kf _ _ _ _ _ _ _ _ _ _ _ (Hp _ _ Ha Hb) (Hq _ _ Hg Hd)
+                        (Hpq _ _ _ _ Ha Hb Hg Hd) H2 (fun _ => 0) cx' cy' cz' ax' ay' az')). }
+    rewrite chan_val_product. reflexivity.
+Qed.
+End Final.
+End Whole.
+
+(* ======================= the hypotheses are satisfiable (Qc) ======================= *)
+From Coq Require Import QArith Qcanon.
+Definition KQ4 : Fops Qc :=
+  QcK true (Q2Qc 3) (fun x => x) (fun x => x) (fun x => x)
+      (fun m _ => qc_of 1 (Pos.of_nat (2 * m + 1))).       (* an arbitrary "Boys" sequence 1/(2m+1) *)
+Lemma KQ4_field : is_field KQ4. Proof. apply QcK_field. Qed.
+Lemma qc_neq_of_bool (x y : Qc) : Qeq_bool x y = false -> x <> y.
+Proof. intros Hb E. subst y. rewrite (proj2 (Qeq_bool_iff x x) (Qeq_refl x)) in Hb. discriminate. Qed.
+
+(* p = 3/2, q = 2 *)
+Example eri_hyps_ex :
+  qc_of 3 2 <> f0 KQ4 /\ qc_of 2 1 <> f0 KQ4 /\ fadd KQ4 (qc_of 3 2) (qc_of 2 1) <> f0 KQ4
+  /\ fadd KQ4 (f1 KQ4) (f1 KQ4) <> f0 KQ4.
+Proof. repeat split; apply qc_neq_of_bool; vm_compute; reflexivity. Qed.
+
+(* a concrete primitive quartet: the model entry [xz, 0 | x, 0] of a (d s | p s)-type table equals
+   Phi_0 of the polynomial of eri_prim_correct, both sides computed *)
+Example eri_prim_correct_ex :
+  let A := (qc_of 1 2, qc_of 0 1, qc_of (-1) 4) in let B := (qc_of 0 1, qc_of 1 1, qc_of 1 2) in
+  let C := (qc_of (-1) 1, qc_of 1 4, qc_of 0 1) in let D := (qc_of 3 4, qc_of (-1) 2, qc_of 1 1) in
+  let al := qc_of 1 2 in let be := qc_of 1 1 in let ga := qc_of 3 2 in let de := qc_of 1 2 in
+  let p := fadd KQ4 al be in let q := fadd KQ4 ga de in
+  let ctr := fun a b x y => fdiv KQ4 (fadd KQ4 (fmul KQ4 a x) (fmul KQ4 b y)) (fadd KQ4 a b) in
+  let Px := ctr al be (qc_of 1 2) (qc_of 0 1) in let Py := ctr al be (qc_of 0 1) (qc_of 1 1) in
+  let Pz := ctr al be (qc_of (-1) 4) (qc_of 1 2) in
+  let Qx := ctr ga de (qc_of (-1) 1) (qc_of 3 4) in let Qy := ctr ga de (qc_of 1 4) (qc_of (-1) 2) in
+  let Qz := ctr ga de (qc_of 0 1) (qc_of 1 1) in
+  eget KQ4 (eri_prim KQ4 3 1 A B C D al be ga de) 1 0 0 1 0 1
+  = Phi KQ4 (eri_base KQ4 (qc_of 1 2) (qc_of 0 1) (qc_of (-1) 4) (qc_of 0 1) (qc_of 1 1) (qc_of 1 2)
+                          (qc_of (-1) 1) (qc_of 1 4) (qc_of 0 1) (qc_of 3 4) (qc_of (-1) 2) (qc_of 1 1)
+                          al be ga de) 0
+        (R3 KQ4 p q (fsub KQ4 Px (qc_of 1 2)) (fsub KQ4 Py (qc_of 0 1)) (fsub KQ4 Pz (qc_of (-1) 4))
+            (fsub KQ4 Qx (qc_of (-1) 1)) (fsub KQ4 Qy (qc_of 1 4)) (fsub KQ4 Qz (qc_of 0 1))
+            (fsub KQ4 Px Qx) (fsub KQ4 Py Qy) (fsub KQ4 Pz Qz) 1 0 0 1 0 1).
+Proof. apply Qc_is_canon. vm_compute. reflexivity. Qed.
